@@ -109,7 +109,12 @@ type exec struct {
 	redo []func() *tevent
 	// votes delivered (for the C01 finalize oracle): round -> blk -> set of validators
 	pcs      map[int32]map[int]map[int]bool
+	// prevotes known to the engine's world: round -> decision (0 nil) -> validators
+	pvs map[int32]map[int]map[int]bool
+	// own non-nil precommits really sent: (round, block)
+	ownPC [][2]int
 	lastOuts int // recorder index where the last event's outputs start
+	pending  bool // the last event's outputs are neither committed nor cut yet
 	nextTS   int64
 	maxRound int32
 }
@@ -253,9 +258,13 @@ func (x *exec) collect(ev *tevent, from, to int, evIdx int) {
 		o := outs[i]
 		t, ok := x.decodeOut(o, i, evIdx)
 		if !ok {
-			continue
+			t.K = "unknown"
 		}
 		ev.Outs = append(ev.Outs, t)
+		if o.Kind == oFinalize {
+			// what follows belongs to the next height (its timers run already)
+			break
+		}
 		if o.Kind == oBcast && (o.Proto == consensus.ProtoVote || o.Proto == consensus.ProtoProposal) {
 			// durably remembered before sent
 			want := append(be16(o.Proto.Uint16()), o.Payload...)
@@ -297,8 +306,17 @@ func (x *exec) registerSent(from, to int, evIdx int) {
 		switch mm := m.(type) {
 		case *consensus.VoteMessage:
 			x.sent = append(x.sent, sentMsg{o.Proto, o.Payload, mm.Height, mm.Round, int(mm.Type), o.Inc, evIdx, mine})
-			if mine && mm.Type == consensus.VoteTypePrecommit && mm.Height == 1 && mm.BlockPartSetIDAndNTSVoteCount != nil {
-				x.notePC(mm.Round, x.idOfKey(consensus.VerifPSIDKey(mm.BlockPartSetIDAndNTSVoteCount.ID())), x.r.own)
+			dec := 0
+			if mm.BlockPartSetIDAndNTSVoteCount != nil {
+				dec = x.idOfKey(consensus.VerifPSIDKey(mm.BlockPartSetIDAndNTSVoteCount.ID()))
+			}
+			if mine && mm.Type == consensus.VoteTypePrecommit && mm.Height == 1 && dec != 0 {
+				x.notePC(mm.Round, dec, x.r.own)
+				x.ownPC = append(x.ownPC, [2]int{int(mm.Round), dec})
+			}
+			if mine && mm.Type == consensus.VoteTypePrevote && mm.Height == 1 {
+				x.checkLock(mm.Round, dec, evIdx)
+				x.notePV(mm.Round, dec, x.r.own)
 			}
 		case *consensus.ProposalMessage:
 			x.sent = append(x.sent, sentMsg{o.Proto, o.Payload, mm.Height, mm.Round, -1, o.Inc, evIdx, mine})
@@ -346,13 +364,32 @@ func (x *exec) checkEquivocation() {
 
 // C01 node-level oracle: Finalize only with +2/3 precommits for the block in one round
 func (x *exec) checkFinalize(ev *tevent) {
-	for _, o := range ev.Outs {
+	for i, o := range ev.Outs {
 		if o.K != "finalize" {
 			continue
 		}
+		// voters per round for this block: delivered precommits, own precommits
+		// really sent earlier, own precommits sent earlier in this very event
+		tally := map[int32]map[int]bool{}
+		for r, m := range x.pcs {
+			for v := range m[o.Blk] {
+				if tally[r] == nil {
+					tally[r] = map[int]bool{}
+				}
+				tally[r][v] = true
+			}
+		}
+		for _, p := range ev.Outs[:i] {
+			if p.K == "sendvote" && p.V.Type == 1 && p.V.Dec == o.Blk {
+				if tally[p.V.Round] == nil {
+					tally[p.V.Round] = map[int]bool{}
+				}
+				tally[p.V.Round][x.r.own] = true
+			}
+		}
 		ok := false
-		for _, m := range x.pcs {
-			if len(m[o.Blk])*3 > 2*x.h.N {
+		for _, m := range tally {
+			if len(m)*3 > 2*x.h.N {
 				ok = true
 			}
 		}
@@ -369,6 +406,7 @@ func (x *exec) checkFinalize(ev *tevent) {
 func (x *exec) run(ev *tevent, f func() (consensus.VerifState, string)) {
 	from := x.r.rec.len()
 	x.lastOuts = from
+	x.pending = true
 	st, p := f()
 	to := x.r.rec.len()
 	evIdx := len(x.h.Events)
@@ -397,6 +435,10 @@ func (x *exec) run(ev *tevent, f func() (consensus.VerifState, string)) {
 
 // commit the outputs of the last event as having happened (no crash cut)
 func (x *exec) commitLast() {
+	if !x.pending {
+		return
+	}
+	x.pending = false
 	x.registerSent(x.lastOuts, x.r.rec.len(), len(x.h.Events)-1)
 	x.lastOuts = x.r.rec.len()
 }
@@ -417,8 +459,8 @@ func (x *exec) evStart() *tevent {
 func (x *exec) evVote(v tvote) *tevent {
 	ev := &tevent{K: "vote", V: v, CurH: v.CurH}
 	bs := x.voteBytesOf(v)
-	x.run(ev, func() (consensus.VerifState, string) { return x.r.deliver(consensus.ProtoVote, bs) })
 	x.noteDelivered(v)
+	x.run(ev, func() (consensus.VerifState, string) { return x.r.deliver(consensus.ProtoVote, bs) })
 	return ev
 }
 
@@ -426,6 +468,46 @@ func (x *exec) noteDelivered(v tvote) {
 	if v.CurH && v.From >= 0 && v.Type == 1 && v.Dec > 0 {
 		x.notePC(v.Round, v.Dec, v.From)
 	}
+	if v.CurH && v.From >= 0 && v.Type == 0 {
+		x.notePV(v.Round, v.Dec, v.From)
+	}
+}
+
+func (x *exec) notePV(round int32, dec int, from int) {
+	if x.pvs[round] == nil {
+		x.pvs[round] = map[int]map[int]bool{}
+	}
+	if x.pvs[round][dec] == nil {
+		x.pvs[round][dec] = map[int]bool{}
+	}
+	x.pvs[round][dec][from] = true
+}
+
+// C01 node-level oracle (lock discipline): after precommitting block B in
+// round r the validator prevotes, in a later round, something else only if a
+// polka for something else exists at a round above r among the prevotes that
+// were delivered to it or that it sent itself.
+func (x *exec) checkLock(round int32, dec int, evIdx int) {
+	lr, lb := int32(-1), 0
+	for _, pc := range x.ownPC {
+		if int32(pc[0]) < round && int32(pc[0]) > lr {
+			lr, lb = int32(pc[0]), pc[1]
+		}
+	}
+	if lb == 0 || dec == lb {
+		return
+	}
+	for r, m := range x.pvs {
+		if r <= lr {
+			continue
+		}
+		for d, voters := range m {
+			if d != lb && len(voters)*3 > 2*x.h.N {
+				return
+			}
+		}
+	}
+	x.fail(fmt.Sprintf("lock discipline: precommitted block %d in round %d, then prevoted %d in round %d (event %d) without a polka for anything else above round %d", lb, lr, dec, round, evIdx, lr))
 }
 
 func (x *exec) heightOf(cur bool) int64 {
@@ -467,10 +549,10 @@ func (x *exec) evVoteList(vl []tvote) *tevent {
 		l.AddVote(x.voteMsgOf(v))
 	}
 	bs := mustMarshal(&consensus.VoteListMessage{VoteList: l})
-	x.run(ev, func() (consensus.VerifState, string) { return x.r.deliver(consensus.ProtoVoteList, bs) })
 	for _, v := range vl {
 		x.noteDelivered(v)
 	}
+	x.run(ev, func() (consensus.VerifState, string) { return x.r.deliver(consensus.ProtoVoteList, bs) })
 	return ev
 }
 
@@ -544,6 +626,7 @@ func (x *exec) crashAndRestart(cutRel int, sp crashSpec) {
 	last := x.h.Events[len(x.h.Events)-1]
 	cutAbs := x.lastOuts + cutRel
 	last.Cut = cutRel
+	x.pending = false
 	if cutRel < len(last.Outs) {
 		x.h.Fused++
 	}
@@ -762,7 +845,7 @@ func (x *exec) randomCrashSpec(cfg genCfg) crashSpec {
 }
 
 func (x *exec) maybeCrash(cfg genCfg) bool {
-	if x.r.down || x.r.finalized || x.h.Panic != "" || x.h.Oracle != "" {
+	if x.r.down || x.r.finalized || x.h.Panic != "" || x.h.Oracle != "" || !x.pending {
 		return false
 	}
 	last := x.h.Events[len(x.h.Events)-1]
@@ -781,6 +864,9 @@ func (x *exec) maybeCrash(cfg genCfg) bool {
 	}
 	if last.K == "restart" && x.h.Crashes > 0 {
 		p = cfg.DoubleP
+		if len(last.Outs) == 0 {
+			p = 40
+		}
 	}
 	if x.rnd.Intn(1000) >= p {
 		return false
@@ -820,7 +906,8 @@ func (x *exec) step(cfg genCfg) bool {
 	switch {
 	case len(pend) > 0 && k < 550:
 		q := pend[x.rnd.Intn(len(pend))]
-		x.evCallback(q, x.rnd.Intn(7) == 0)
+		// a failed forced import (commit) is a designed panic: not injected
+		x.evCallback(q, x.rnd.Intn(7) == 0 && q.flags&module.ImportByForce == 0)
 	case st.Timer && k < 550+cfg.TimeoutP:
 		x.evTimeout()
 	case k < 700:
@@ -865,14 +952,15 @@ func (x *exec) genProposal(st *tstate) {
 	if x.rnd.Intn(8) == 0 {
 		round = x.pickRound(st)
 	}
+	if x.h.N == 1 {
+		x.evVote(tvote{From: -1, Round: st.Round, Type: x.rnd.Intn(2), Dec: 0, TS: 1, CurH: true})
+		return
+	}
 	b := x.pickBlock(st, round)
 	from := x.proposerOf(round)
 	if from == x.r.own {
 		// the engine proposes itself in this round; an outside proposal needs another sender
 		from = x.others()[0]
-		if x.h.N == 1 {
-			return
-		}
 	}
 	switch x.rnd.Intn(14) {
 	case 0:
@@ -990,7 +1078,7 @@ func runHistory(w *world, own int, profile string, seed int64) *history {
 	r := newRunner(w, own)
 	defer r.close()
 	h := &history{N: w.n, Own: own, Profile: profile}
-	x := &exec{r: r, rnd: rnd, h: h, pcs: map[int32]map[int]map[int]bool{}}
+	x := &exec{r: r, rnd: rnd, h: h, pcs: map[int32]map[int]map[int]bool{}, pvs: map[int32]map[int]map[int]bool{}}
 	cfg := genCfg{Len: 10 + rnd.Intn(14), CrashP: 60, WindowP: 250, DoubleP: 200, TimeoutP: 120, HeaderCutP: 250}
 	switch profile {
 	case "nocrash":
@@ -1024,6 +1112,107 @@ func runHistory(w *world, own int, profile string, seed int64) *history {
 	}
 	if len(r.t.errs) > 0 && h.Discard == "" && h.Oracle == "" {
 		h.Discard = "fixture assertion: " + r.t.errs[0]
+	}
+	return h
+}
+
+// ---------------------------------------------------------------- scripted histories (corpus)
+
+type scriptStep struct {
+	K     string `json:"k"` // start proposal part votes votelist timeout cb crash
+	Round int32  `json:"round,omitempty"`
+	From  []int  `json:"from,omitempty"`
+	Type  int    `json:"type,omitempty"` // 0 prevote 1 precommit
+	Blk   int    `json:"blk,omitempty"`  // 0 = nil
+	Pol   int32  `json:"pol,omitempty"`
+	Idx   int    `json:"idx,omitempty"`
+	Fail  bool   `json:"fail,omitempty"`
+	Cut   int    `json:"cut,omitempty"`  // crash: outputs of the previous event that happened (-1 = all)
+	Keep  int    `json:"keep,omitempty"` // crash: 0 none, 1 all, 2 exactly a frame header
+}
+
+type script struct {
+	Name  string       `json:"name"`
+	N     int          `json:"n"`
+	Own   int          `json:"own"`
+	Steps []scriptStep `json:"steps"`
+}
+
+func runScript(w *world, sc script) *history {
+	r := newRunner(w, sc.Own)
+	defer r.close()
+	h := &history{N: w.n, Own: sc.Own, Profile: "script:" + sc.Name}
+	x := &exec{r: r, rnd: rand.New(rand.NewSource(1)), h: h, pcs: map[int32]map[int]map[int]bool{}, pvs: map[int32]map[int]map[int]bool{}}
+	for _, st := range sc.Steps {
+		if h.Panic != "" || r.finalized || r.discard != "" || r.harnessErr != "" {
+			break
+		}
+		if st.K != "crash" {
+			x.commitLast()
+		}
+		if st.K != "start" && st.K != "crash" && st.K != "timeout" && r.timerClose() {
+			x.evTimeout()
+			x.commitLast()
+		}
+		switch st.K {
+		case "start":
+			x.evStart()
+		case "proposal":
+			pol := st.Pol
+			if pol == 0 && st.Round == 0 {
+				pol = -1
+			}
+			x.evProposal(true, st.Round, st.From[0], pol, x.blk(st.Blk))
+		case "part":
+			x.evPart(true, x.blk(st.Blk), st.Idx)
+		case "votes", "votelist":
+			var l []tvote
+			for _, f := range st.From {
+				l = append(l, tvote{From: f, Round: st.Round, Type: st.Type, Dec: st.Blk, TS: 1, CurH: true})
+			}
+			if st.K == "votelist" {
+				x.evVoteList(l)
+			} else {
+				for i, v := range l {
+					if i > 0 {
+						x.commitLast()
+					}
+					x.evVote(v)
+				}
+			}
+		case "timeout":
+			if x.curState().Timer {
+				x.evTimeout()
+			}
+		case "cb":
+			if p := r.pendingReqs(); len(p) > 0 {
+				x.evCallback(p[0], st.Fail)
+			}
+		case "crash":
+			if !x.pending {
+				continue
+			}
+			last := h.Events[len(h.Events)-1]
+			cut := st.Cut
+			if cut < 0 || cut > len(last.Outs) {
+				cut = len(last.Outs)
+			}
+			sp := crashSpec{Frac: map[string]int{}, Mode: map[string]int{}}
+			for _, wn := range []string{"round", "lock", "commit"} {
+				sp.Mode[wn] = map[int]int{0: 3, 1: 2, 2: 1}[st.Keep]
+			}
+			x.crashAndRestart(cut, sp)
+		}
+	}
+	if !r.down && h.Panic == "" {
+		x.commitLast()
+	}
+	x.checkEquivocation()
+	h.Blocks = r.blocks
+	if r.harnessErr != "" {
+		h.Discard = "harness: " + r.harnessErr
+	} else if r.discard != "" {
+		h.Discard = r.discard
 	}
 	return h
 }
